@@ -72,7 +72,7 @@ def rule_guard_shape(P, which=("binarize", "_push_null_weights", "unaryremove", 
             ok = len(st) <= 1
             hi_total = len(ex)
             for s in st:
-                lo, hi = W.len_bounds(facts, norm(s))
+                lo, hi = W.len_bounds(facts, W.cnorm(f.node, s, c))
                 if hi is None:
                     ok = False
                 else:
@@ -90,7 +90,7 @@ def rule_guard_shape(P, which=("binarize", "_push_null_weights", "unaryremove", 
             facts = W.cguard_facts(f.node, c)
             nonempty = bool(ex)
             for s in st:
-                lo, hi = W.len_bounds(facts, norm(s))
+                lo, hi = W.len_bounds(facts, W.cnorm(f.node, s, c))
                 if lo >= 1:
                     nonempty = True
             at_start = len(c.args) >= 2 and norm(c.args[1]) == "self.S" and not ex and not st
@@ -109,7 +109,7 @@ def rule_guard_shape(P, which=("binarize", "_push_null_weights", "unaryremove", 
             ok = True
             why = ""
             for s in st:
-                b = norm(s)
+                b = W.cnorm(f.node, s, c)
                 lo, hi = W.len_bounds(facts, b)
                 if lo == 1 and hi == 1 or (hi is None or (lo <= 1 <= hi)):
                     if not (hi == 0 or lo >= 2) and not _neg_unary_fact(facts, b):
@@ -130,6 +130,7 @@ def rule_guard_shape(P, which=("binarize", "_push_null_weights", "unaryremove", 
             facts = W.cguard_facts(f.node, c)
             ok = False
             shape = "?"
+            lo = hi = None
             encl = W.enclosing_function(c)
             if encl is not f.node and isinstance(encl, ast.FunctionDef):
                 # the preterminal factory: one body symbol = its parameter, head = _gen_nt()
@@ -150,6 +151,14 @@ def rule_guard_shape(P, which=("binarize", "_push_null_weights", "unaryremove", 
                 else:
                     ok = lo == 1 and hi == 1 and _pos_fact(facts, f"self.is_terminal({b}[0])")
                     shape = "A → a copied"
+                    if hi is None and lo in (0, None):
+                        lo = None  # nothing known about the body: built elsewhere
+            if not ok and shape == "?":
+                r.undecided(f, c, f"`{first_line(c)}`: shape of the emitted body not recognised", construct=f"separate_terminals: {first_line(c)}")
+                continue
+            if not ok and len(st) == 1 and not ex and not isinstance(st[0], (ast.GeneratorExp, ast.ListComp)) and lo is None:
+                r.undecided(f, c, f"`{first_line(c)}`: the emitted body `*{norm(st[0])}` is built elsewhere", construct=f"separate_terminals: {first_line(c)}")
+                continue
             r.add(f, c, ok, "" if ok else f"`{first_line(c)}` can leave a terminal inside a longer right-hand side / emit a "
                   f"non-preterminal terminal rule", slots=dict(builder="separate_terminals", shape=shape))
         if len(sites) < 3:
@@ -525,7 +534,7 @@ def rule_guard_trim(P):
         if recv not in (tname, cname) or len(c.args) != 1:
             continue
         n_ins += 1
-        sym = norm(c.args[0])
+        sym = W.cnorm(f.node, c.args[0], c)
         facts = W.cguard_facts(f.node, c)
         # which rule variable is being followed?  the innermost `for <e> in incoming/outgoing[...]`
         rulevar = None
